@@ -80,6 +80,10 @@ def write_machine_config():
                           "default_hold_power": None, "max_hold_duration": None, "pulse_with_timed_enable": False})}
     for n, (num, c) in extra.items():
         lines += coil_yaml(n, num, c)
+    # a coil whose default pulse time is a template over an operator setting: the limit has to hold for the value the
+    # setting has when the coil is used, not only for the one it had when the coil was configured
+    lines += ["  kt:", "    number: 220", "    default_pulse_ms: settings.coil_pulse", "    max_pulse_ms: 30",
+              "    pulse_events: kt_ev_pulse"]
     lines += ["switches:", "  s_flip:", "    number: 1", "  s_flip2:", "    number: 2", "  s_sling:", "    number: 3", "  s_flip3:", "    number: 4",
               "dual_wound_coils:", "  dw:", "    main_coil: fm", "    hold_coil: fh",
               "digital_outputs:", "  do1:", "    number: 210", "    type: driver",
@@ -92,7 +96,9 @@ def write_machine_config():
               "      pulse_power: 0.25",
               "  a_over_ms:", "    coil: af", "    switch: s_sling", "    coil_overwrite:", "      pulse_ms: 80",
               "  a_over_pw:", "    coil: af", "    switch: s_sling", "    coil_overwrite:", "      pulse_power: 1.0",
-              "coil_player:"]
+              "settings:", "  coil_pulse:", "    label: coil pulse", "    sort: 1", "    key_type: int", "    default: 10",
+              "    values:", "      10: weak", "      20: normal", "      50: too strong",
+              "coil_player:", "  cp_pulse_kt:", "    kt:", "      action: pulse"]
     for i in (0, 5, 64, 127):
         lines += ["  cp_pulse_k%d:" % i, "    k%d:" % i, "      action: pulse"]
     with open(os.path.join(path, "config.yaml"), "w") as f:
@@ -375,6 +381,37 @@ def _input_worker(arg):
                     bad("envelope:digital_output:%s" % ("negative" if "negative" in r else "limit"),
                         "DigitalOutput.pulse(%r) sent %s%r although the driver is configured with max_pulse_ms=255: %s" %
                         (ms, c[1], c[2], r), {"entry": "digital_output", "ms": ms})
+        # the coil with a default pulse time taken from a setting, for every value of the setting in turn
+        kt = m.coils["kt"]
+        spt = HwSpy(loop, kt.hw_driver, "kt")
+        envt = Envelope({"max_pulse_ms": 30, "max_pulse_power": None, "max_hold_power": None, "allow_enable": False,
+                         "default_hold_power": None})
+        for val in (10, 20, 50, 20, 50, 10):
+            m.settings.set_setting_value("coil_pulse", val)
+            loop.drain()
+            for entry in ("pulse()", "event", "coil_player"):
+                count += 1
+                spt.log.clear()
+                try:
+                    if entry == "pulse()":
+                        kt.pulse()
+                    elif entry == "event":
+                        m.events.post("kt_ev_pulse")
+                    else:
+                        m.events.post("cp_pulse_kt")
+                    loop.drain()
+                except BaseException:   # noqa
+                    pass
+                loop.exc_log = []
+                commands += len(spt.log)
+                if val <= 30 and not any(c[1] == "pulse" for c in spt.log):
+                    bad("template-default:not-pulsed", "kt (default_pulse_ms: settings.coil_pulse = %d, max_pulse_ms 30) did not pulse on %s" %
+                        (val, entry), {"entry": "template_default", "value": val})
+                for c in spt.log:
+                    r = judge_command(envt, c)
+                    if r:
+                        bad("envelope:template-default:limit", "kt %s with settings.coil_pulse = %d sent %s%r although max_pulse_ms is 30: %s" %
+                            (entry, val, c[1], c[2], r), {"entry": "template_default", "value": val})
     sysm.close()
     return count, refused, accepted, commands, len(outcomes), viols, sample
 
